@@ -58,6 +58,22 @@ func (idx SiteCallees) CalleesAt(ci ssa.CallInstruction) []*ssa.Function {
 // context-insensitive and meant for following one kind of object (a channel,
 // a wait group, a slice) through a few small functions.
 func ForwardFlow(seeds []ssa.Value, idx SiteCallees, follow func(*ssa.Function) bool) map[ssa.Value]bool {
+	return FlowOpts{Idx: idx, Follow: follow}.Run(seeds)
+}
+
+// FlowOpts configures ForwardFlow.  Returns: values returned by a followed
+// function flow to its (static) call sites given by Callers.  Containers:
+// storing into an element/field address also marks the base object.
+type FlowOpts struct {
+	Idx        SiteCallees
+	Follow     func(*ssa.Function) bool
+	Returns    bool
+	Callers    func(*ssa.Function) []ssa.CallInstruction
+	Containers bool
+}
+
+func (fo FlowOpts) Run(seeds []ssa.Value) map[ssa.Value]bool {
+	idx, follow := fo.Idx, fo.Follow
 	T := map[ssa.Value]bool{}
 	var work []ssa.Value
 	add := func(v ssa.Value) {
@@ -81,6 +97,42 @@ func ForwardFlow(seeds []ssa.Value, idx SiteCallees, follow func(*ssa.Function) 
 			case *ssa.Store:
 				if r.Val == x {
 					add(r.Addr)
+					if fo.Containers {
+						base := r.Addr
+						for {
+							if ia, ok := base.(*ssa.IndexAddr); ok {
+								base = ia.X
+							} else if fa, ok := base.(*ssa.FieldAddr); ok {
+								base = fa.X
+							} else {
+								break
+							}
+							add(base)
+						}
+					}
+				}
+			case *ssa.Return:
+				if fo.Returns && fo.Callers != nil {
+					for ri, res := range r.Results {
+						if res != x {
+							continue
+						}
+						for _, site := range fo.Callers(r.Parent()) {
+							v := site.Value()
+							if v == nil {
+								continue
+							}
+							if len(r.Results) == 1 {
+								add(v)
+							} else {
+								for _, rr := range *v.Referrers() {
+									if e, ok := rr.(*ssa.Extract); ok && e.Index == ri {
+										add(e)
+									}
+								}
+							}
+						}
+					}
 				}
 			case *ssa.UnOp:
 				if r.Op == token.MUL && r.X == x {
